@@ -571,9 +571,13 @@ def gen_walk(rng, v, o, maxsteps=4, allow_filter=True, depth=0, first=True):
                 if form < 0.4:
                     q.append(["keysfilter", "==", ["lit", k0]])
                     v = v[k0]
-                elif form < 0.7:
+                elif form < 0.55:
                     q.append(["keysfilter", "==", ["lit", {"$re": "^" + k0[:1]}]])
                     v = rng.choice([v[k] for k in ks if k.startswith(k0[:1])])
+                elif form < 0.62:
+                    # a list with members of other types next to the key name
+                    q.append(["keysfilter", "in", ["lit", rng.sample([k0, 5, True, "nokey"], 4)[:rng.randint(2, 4)] + [k0]]])
+                    v = v[k0]
                 elif form < 0.7 and o.interp and getattr(o, "_strvars", None):
                     # the key name(s) to keep come from a variable
                     name, keys = rng.choice(o._strvars[:2])
